@@ -109,6 +109,23 @@ def main():
             fh.write("\n")
         kept += 1
     print("seeded changes kept:", kept)
+    if "--md" in sys.argv:
+        # regenerate the table in DESIGN.md (between the two markers) from what is actually kept under seeded/
+        rows = ["| id | what the change needs in order to manifest | caught by (check: violation key) | check strengthened first? |", "|----|----|----|----|"]
+        for sid in sorted(table):
+            mp = os.path.join(V, "seeded", sid, "meta.json")
+            if not os.path.exists(mp):
+                continue
+            m = json.load(open(mp))
+            caught = "; ".join("%s: `%s`" % (c["check"], c["violation_key"]) for c in m["caught_by"])
+            rows.append("| %s | %s | %s | %s |" % (sid, m["needs_to_manifest"].replace("|", "\\|"), caught.replace("|", "\\|"), (m["check_strengthened"] or "no").replace("|", "\\|")))
+        dp = os.path.join(V, "DESIGN.md")
+        d = open(dp).read()
+        b, e = "<!-- seeded-table-begin -->", "<!-- seeded-table-end -->"
+        if b in d and e in d:
+            d = d[:d.index(b) + len(b)] + "\n" + "\n".join(rows) + "\n" + d[d.index(e):]
+            open(dp, "w").write(d)
+            print("DESIGN.md table rewritten:", len(rows) - 2, "rows")
 
 
 if __name__ == "__main__":
